@@ -6,32 +6,39 @@
   Times as the code computes them (`fl` one rounding): `x = fl(A + fl(s·D))` (span start), repeat `r = fl(x + D)`,
   tail `T = fl(A + fl(n·D))`.
 
-  STATUS: `repeat_le_tail_nonneg_small_statement` is **OPEN** — neither proved nor refuted here.
+  STATUS: `repeat_le_tail_nonneg_small_statement` is **OPEN** — neither proved nor refuted; PROVED outside a sliver of
+  span durations of relative width `2⁻³¹` at half an ulp of the span start (`repeat_le_tail_nonneg_small_outside_sliver`).
   * SEARCH (C, binary64 with `-ffp-contract=off`, `≈ 10⁹` cases, none failing): `A = 0`, integer `A < 2³¹`, `A` with a
     fractional part, `A` next to powers of two, random bit patterns; `D` = half an ulp of `A` plus `0 … 2²⁴` ulps of `D`,
     just below half an ulp, random multiples of the ulp, subnormal, random; `A` comparable to `n·D` (`A = k·D`, `A`
     next to `fl(s·D)`); `n ≤ 9002`, `n ≤ 2²⁰` (also near powers of two), `s = n − 2`, the last `40` repeats, random `s`.
     (The same search with `n ≤ 2³⁰` does not find the witness `wPos` of Order2 either: random search is weak evidence.)
-  * MECHANISM (pencil, NOT formalised). Let `2h` be the spacing of the doubles above `x`.
-      (ii) `D < h`: `x + D` is below the midpoint, `r = x ≤ T` by monotonicity (`repeat_le_tail_of_absorbed_float`
-           below, with the absorption `fl(x + D) = x` as a HYPOTHESIS);
-      (i)  `D ≥ h + (rounding errors of the two products)`: `x + D ≤ A + fl(n·D)` exactly, hence `r ≤ T`;
-           formalised here only with the cruder constant `D ≥ 2⁻⁴⁹·A` (`≈ 16` ulps), `repeat_le_tail_nonneg_small_partial`;
-      (iii) the sliver `D = h·(1 + δ)`, `0 < δ < n·2⁻⁵²`: `r = x + 2h`, and `T = x` would need `A + fl(s·D)` within
-           `γ = 2h − (fl(n·D) − fl(s·D)) > 0` above a midpoint. `A` is a multiple of `h`; `fl(s·D) = h·(s + ρ_s)` with
-           `ρ_s` = `s·δ` rounded to the grid of `s`; while `s·δ < 1` the fractional part of `fl(s·D)/h` is `ρ_s ≥ ulp(s)`, and
-           `ρ_s < γ = ρ_s − ρ_n` is impossible. A failure therefore needs `s·δ ≥ 1` with `δ < n·2⁻⁵²`, i.e. `s·n ≳ 2⁵²`,
-           `n ≳ 2²⁶` — consistent with `wPos` (`n = 2²⁹ + 1`, `δ = 2⁻²⁷`, `s·δ = 4`) and with the empty search.
-    What is missing for a proof: ulp-exact facts about one rounded addition (`fl(x + D) = x` for `D` below half the
-    spacing above `x`; `fl(x + D) ≤ x + 2h` for `D < 2h`) and the grid argument of (iii). The error bounds of
-    Lemmas/FloatErr*.lean (`Rnd`: half an ulp of SOME admissible grid) do not expose the grid of the result.
+  * MECHANISM. Let the span start be `x = m·2^e` (`2^e` the spacing of the doubles at `x`, `h = 2^e / 2`).
+      (ii) `D < h`: `x + D` is below the midpoint, `fl(x + D) ≤ x ≤ T` — PROVED (`add_absorb_le_float_exp`,
+           Lemmas/FloatAddAbsorb.lean);
+      (i)  `D ≥ h·(1 + 2⁻³¹) + 2⁻¹⁰⁷³`: `x + D ≤ A + fl(n·D)` EXACTLY (`|x − (A + fl(s·D))| ≤ h`, `add_half_ulp_float`; the
+           errors of the two products are `≤ 2⁻³²·D`), and a rounded sum is monotone in the exact sum
+           (`add_le_add_of_toRat_le`, Lemmas/FloatAddSumMono.lean) — PROVED;
+      (iii) the sliver `D = h·(1 + δ)`, `0 ≤ δ < 2⁻³¹`: pencil argument, NOT formalised: `r = x + 2h`, and `T = x` would need
+           `A + fl(s·D)` within `γ = 2h − (fl(n·D) − fl(s·D)) > 0` above a midpoint. `A` is a multiple of `h`;
+           `fl(s·D) = h·(s + ρ_s)` with `ρ_s` = `s·δ` rounded to the grid of `s`; while `s·δ < 1` the fractional part of
+           `fl(s·D)/h` is `ρ_s ≥ ulp(s)`, and `ρ_s < γ = ρ_s − ρ_n` is impossible. A failure therefore needs `s·δ ≥ 1` with
+           `δ < n·2⁻⁵²`, i.e. `s·n ≳ 2⁵²`, `n ≳ 2²⁶` — consistent with `wPos` (`n = 2²⁹ + 1`, `δ = 2⁻²⁷`, `s·δ = 4`) and with
+           the empty search.
+    What is missing for a proof: the grid argument of (iii) (the residues of the two rounded products modulo `h`), and the
+    start `A = 0` with a span duration below `2⁻¹⁰⁷¹` (the error bound of a rounded product has the absolute term `2⁻¹⁰⁷⁵`).
 
-  PROVED here:
-  * `repeat_le_tail_nonneg_small_partial` — `0 ≤ A`, `n ≤ 2²⁰`, `2⁻⁴⁹·A + 2⁻¹⁰⁷¹ ≤ D` ⟹ every repeat `≤` tail: the bound is
-    RELATIVE to the start only (`n·D` no longer enters); `…_limit`: `A ≤ 2³¹` and `D ≥ 2⁻¹⁸` ms.
-  * `repeat_le_tail_zero_start_float` — start `±0`, `n < 2³¹`, `D ≥ 2⁻¹⁰⁷¹` ⟹ every repeat `≤` tail.
+  PROVED here (all: finite times, `0 ≤ D`, `0 ≤ s`, `s + 2 ≤ n`):
+  * **`repeat_le_tail_nonneg_small_outside_sliver`** — `0 < A`, `n ≤ 2²⁰`, span start `x = m·2^e`:
+    `D < 2^e / 2` or `2^e / 2·(1 + 2⁻³¹) + 2⁻¹⁰⁷³ ≤ D` ⟹ repeat `≤` tail. NO lower bound on `D`.
+  * `repeat_le_tail_nonneg_small_outside_band` — the same relative to the start only:
+    `D ≤ 2⁻⁵⁴·A` (`repeat_le_tail_nonneg_tiny_float`, every `n < 2³¹`) or `2⁻⁵³·(1 + 2⁻³⁰)·A + 2⁻¹⁰⁷² ≤ D`
+    (`repeat_le_tail_nonneg_small_sharp`).
+  * `repeat_le_tail_nonneg_small_partial` (`2⁻⁴⁹·A + 2⁻¹⁰⁷¹ ≤ D`, from the three error bounds of Order2; superseded by the
+    sharp form), `…_limit` (`A ≤ 2³¹` and `D ≥ 2⁻¹⁸` ms).
+  * `repeat_le_tail_zero_start_float` — start `±0`, `n < 2³¹`, `D ≥ 2⁻¹⁰⁷¹`.
   * `repeat_le_tail_of_absorbed_float` — regime (ii) with the absorption as a hypothesis, no magnitude hypothesis.
-  * `repeat_le_tail_band_instances` — kernel-evaluated instances INSIDE the open band (`D` = half an ulp of the span start
+  * `repeat_le_tail_band_instances` — kernel-evaluated instances INSIDE the sliver (`D` = half an ulp of the span start
     plus one ulp of `D`; `D` = exactly half an ulp, the tie; `n = 9002`, `n = 2²⁰`): the order holds on each.
 -/
 import RosuModel.Props.C20IeeeOrder2
@@ -47,7 +54,8 @@ local notation "η₆₄" => ((2 : ℚ) ^ (-1075 : Int))
 /-! ## 1. the open statement -/
 
 /-- the statement for a non-negative start and at most `2²⁰` spans, no lower bound on the span duration. **OPEN**: no
-counterexample in `≈ 10⁹` structured cases; proved below only outside the band `ulp/2 ≲ D < 2⁻⁴⁹·A`. -/
+counterexample in `≈ 10⁹` structured cases; proved below outside the sliver `2^e/2 ≤ D < 2^e/2·(1 + 2⁻³¹) + 2⁻¹⁰⁷³`
+(`2^e` the spacing of the doubles at the span start) for `0 < A`. -/
 def repeat_le_tail_nonneg_small_statement : Prop :=
   ∀ (p : Params Float) (s : Int), 0 ≤ s → s + 2 ≤ p.spanCount → p.spanCount ≤ 2 ^ 20 →
     Scalar.le (0 : Float) p.startTime = true →
@@ -272,7 +280,7 @@ theorem repeat_le_tail_nonneg_small_outside_band (p : Params Float) (s : Int) (h
 
 /-- rational core of the sharp regime with the half-ulp error `h` of the span start. -/
 theorem sharp_rat_exp (a d ps pn x S N t h : ℚ) (hd : 0 ≤ d) (hS0 : 0 ≤ S) (hS : S ≤ 1048576)
-    (hN : S + 2 ≤ N) (ht : 0 ≤ t) (hh : 0 ≤ h)
+    (hN : S + 2 ≤ N) (ht : 0 ≤ t) (_hh : 0 ≤ h)
     (hx : |x - (a + ps)| ≤ h)
     (h2 : |ps - S * d| ≤ 1 / 9007199254740992 * |S * d| + t)
     (h3 : |pn - N * d| ≤ 1 / 9007199254740992 * |N * d| + t)
@@ -380,7 +388,7 @@ example : Scalar.le (repeatEvent wAbs 2).time (tailEvent wAbs).time = true :=
   repeat_le_tail_of_absorbed_float wAbs 2 (by decide) (by decide) (by decide) (by decide +kernel) (by decide +kernel)
     (by decide +kernel) (by decide +kernel)
 
-/-- **instances inside the open band** (`ulp/2 ≤ D < 2⁻⁴⁹·A`, `0 ≤ A`, `s = n − 2`, `n = 9002` resp. `2²⁰`): the repeat is
+/-- **instances inside the open sliver** (`D` at half an ulp of the span start, `0 ≤ A`, `s = n − 2`, `n = 9002` resp. `2²⁰`): the repeat is
 `≤` the tail on each (kernel evaluation); on `wBand1`, `wBand3` the repeat is NOT absorbed. -/
 theorem repeat_le_tail_band_instances :
     Scalar.le (repeatEvent wBand1 9000).time (tailEvent wBand1).time = true ∧
